@@ -352,7 +352,7 @@ func runConcurrentExport(t *testing.T, src, sched *choice.Source, st *Stats) (fs
 	runtime.GOMAXPROCS(gmp)
 	disks := make([]*slowDisk, n)
 	errs := make([]error, n)
-	res := simsched.Run(t, simsched.Config{Src: sched, Sticky: sticky}, func() {
+	res := simsched.Run(t, simsched.Config{Src: sched, Sticky: sticky, Policy: simsched.DrawPolicy(sched)}, func() {
 		done := make(chan int, n)
 		for i := range clients {
 			disks[i] = &slowDisk{w: simio.NewWriter(simio.WriteFaults{}), id: i}
